@@ -148,6 +148,8 @@ RECIPES.update({
     'multi_channel_weight_info_calls': dict(unit='chkpt', name='calls', cls='multi_channel_weight_info', self='multi_channel_weight_info'),
     'multi_channel_weight_info_minimal_weight_count': dict(unit='chkpt', name='minimal_weight_count', cls='multi_channel_weight_info', self='multi_channel_weight_info'),
     'multi_channel_max_difference': dict(unit='chkpt', name='multi_channel_max_difference'),
+    'allreduce_result': dict(unit='mpidrv', name='allreduce_result', opts=dict(free_calls={
+        'MPI_Allreduce': (lambda em, n, args, dst: 'vp_mpi_allreduce(%s, %s)' % (em.emit(args[1]), em.emit(args[2])))})),
     'chi_square_dof': dict(unit='chkpt', name='chi_square_dof', opts=dict(iter_vec='vec_mc_result')),
     'mc_result_calls': dict(name='calls', cls='mc_result', self='mc_result'),
     'mc_result_non_zero_calls': dict(name='non_zero_calls', cls='mc_result', self='mc_result'),
@@ -559,6 +561,12 @@ JOBS = [
                   'loops of the summary have constant bounds (<= 11): unwound completely, checked by unwinding assertions (not a bounded stand-in)']),
     dict(name='max_difference', functions=['multi_channel_max_difference', 'multi_channel_result_adjustment_data'], entry='h_multi_channel_max_difference', enforce='multi_channel_max_difference',
          structs=_ST_MCHK[:5], preludes=['opaque.h'], defines=['VP_NMAX=1048576'], props=['C20'], trusted=['libm fmax / fabs as in vp/prelude/vp.h']),
+    dict(name='c04_allreduce_layout', functions=['allreduce_result', 'distribution_result_ctor2', 'plain_result_distributions', 'distribution_result_results', 'distribution_result_parameters',
+                                                   'plain_result_ctor6', 'mc_result_ctor5', 'mc_result_non_zero_calls', 'mc_result_finite_calls', 'mc_result_sum', 'mc_result_sum_of_squares'],
+         specs=['c04_allreduce_layout'], harness_sections=['c04_allreduce_layout'], entry='h_c04_allreduce_layout', enforce=None, bounded=True,
+         cbmc_flags=['--unwind', '4', '--unwinding-assertions'], loop_contracts=False,
+         structs=_ST_VCHK[:4], preludes=['opaque.h'], props=['C04'],
+         trusted=['MPI_Allreduce modelled for one rank (identity) and logged; with P ranks the element-wise sum keeps positions (paper step)', 'BOUNDED: ONE shape (one additional datum, 2 distributions with 1 and 2 bins), loops unwound with unwinding assertions']),
     dict(name='refine_weights', functions=['multi_channel_refine_weights'], entry='h_multi_channel_refine_weights',
          enforce='multi_channel_refine_weights', replace=['vp_pow'], af=['multi_channel_refine_weights'], globals='T vp_g_s1, vp_g_s2; _Bool vp_g_nodata;',
          defines=['VP_NMAX=1048576'], props=['C08'], thorough_reals=['float'],
